@@ -148,7 +148,11 @@ _AB = [-0.5, 0.5, 0, 1, 2, 4, 1.5, -0.75, 0.25, 3]
 
 def strat_jacobi(tier):
     ab = st.one_of(st.tuples(st.sampled_from(_AB), st.sampled_from(_AB)).map(list),
-                   st.tuples(U.nice_float(-0.95, 6.0), U.nice_float(-0.95, 6.0)).map(list))
+                   st.tuples(U.nice_float(-0.95, 6.0), U.nice_float(-0.95, 6.0)).map(list),
+                   # on and next to the special lines alpha+beta = 0 and alpha+beta = -1
+                   U.nice_float(-0.95, 0.95).map(lambda a: [a, -a]),
+                   st.tuples(U.nice_float(-0.95, 0.95), st.sampled_from([5.5e-17, -1.1e-16, 1e-15, 1e-12, -1e-9, 1e-6])).map(lambda t: [t[0], -t[0] + t[1]]),
+                   st.tuples(U.nice_float(-0.95, -0.05), st.sampled_from([0.0, 1.1e-16, -2.2e-16, 1e-12, -1e-9])).map(lambda t: [t[0], -1.0 - t[0] + t[1]]))
     return st.fixed_dictionaries({'coefs': coef_spec(LMAX[tier]), 'ab': ab, 'x': point_spec(DMAX[tier]),
                                   'container': st.sampled_from(['array', 'list']), 'seed': U.seeds})
 
